@@ -447,7 +447,9 @@ func (th *Thread) conv(dst, src types.Type, x Value) Value {
 					return OBytes{xv}
 				}
 				bs := m.strBytes(xv)
-				out := make(Slice, len(bs))
+				// the runtime rounds the allocation up to a size class: the slice has spare
+				// capacity a later append writes into (shared by every holder of the array)
+				out := make(Slice, len(bs), roundupsize(len(bs)))
 				for i, b := range bs {
 					out[i] = b
 				}
@@ -581,4 +583,17 @@ func (m *Machine) splitConstDiv(a, b *Term) (q, r *Term, ok bool) {
 type divRes struct {
 	c    int64
 	q, r *Term
+}
+
+// roundupsize: malloc size classes of the Go runtime for small byte allocations (what
+// stringtoslicebyte and growslice round a []byte capacity up to).
+func roundupsize(n int) int {
+	classes := []int{0, 8, 16, 24, 32, 48, 64, 80, 96, 112, 128, 144, 160, 176, 192, 208, 224, 240, 256,
+		288, 320, 352, 384, 416, 448, 480, 512, 576, 640, 704, 768, 896, 1024, 1152, 1280, 1408, 1536, 1792, 2048}
+	for _, c := range classes {
+		if n <= c {
+			return c
+		}
+	}
+	return n
 }
